@@ -875,6 +875,79 @@ def tiny_curve_cmds(rng, tier):
     return out
 
 
+# ------------------------------------------------------------------ ecpIsSafeGroup on crafted (p, q) pairs
+def prime_with_cert(rng, bits, mult=1):
+    """a prime q = 1 (mod mult) of the given bit length together with its certificate nodes, built top-down so that the
+    factored part of q - 1 is a (recursively certified) prime F with F^2 > q (Pocklington)"""
+    if bits <= 80:
+        while True:
+            t = rng.getrandbits(bits) | (1 << (bits - 1))
+            q = t - t % (2 * mult) + 1
+            if q.bit_length() == bits and pricert.is_prp(q):
+                return q, [{"n": q, "kind": "mr"}]
+    F, nodes = prime_with_cert(rng, bits // 2 + 3, 1)
+    while True:
+        t = rng.getrandbits(bits - F.bit_length() - 1) | (1 << (bits - F.bit_length() - 2))
+        t -= t % mult
+        q = 2 * F * t + 1
+        if t == 0 or q.bit_length() != bits or not pricert.is_prp(q):
+            continue
+        a = 2
+        while not (pow(a, q - 1, q) == 1 and math.gcd(pow(a, (q - 1) // F, q) - 1, q) == 1):
+            a += 1
+        return q, nodes + [{"n": q, "kind": "pock", "fs": [[len(nodes) - 1, 1, a]]}]
+
+
+def mov_pair(rng, qbits, pbits, k):
+    """primes p, q with ord_q(p) = k exactly: q = 1 (mod k), g of order k modulo q, p a prime congruent to g"""
+    while True:
+        q, nodes = prime_with_cert(rng, qbits, k)
+        g = None
+        for _ in range(200):
+            h = pow(rng.randrange(2, q - 1), (q - 1) // k, q)
+            if all(pow(h, j, q) != 1 for j in range(1, k)) and pow(h, k, q) == 1:
+                g = h
+                break
+        if g is None:
+            continue
+        for _ in range(4000):
+            t = rng.getrandbits(pbits - qbits) | (1 << (pbits - qbits - 1))
+            p = g + t * q
+            if p.bit_length() == pbits and p % 2 and pricert.is_prp(p):
+                return p, q, nodes
+
+
+def safe_group_cmds(rng, tier, suite=False):
+    out = []
+
+    def thr_list(k):
+        return ",".join(str(x) for x in sorted({0, 1, max(k - 1, 0), k, k + 1, 2 * k, 50, 131}))
+
+    def cmd(p, q, k, cls, ev=""):
+        pn = olen(p)                                  # gfpCreate: the top octet of the modulus is non-zero
+        qn = 8 * ((q.bit_length() + 63) // 64)
+        out.append("safeGroup p=%s q=%s k=%d thr=%s cls=%s %s" % (hx(p, pn), hx(q, qn), k, thr_list(k if k else 3), cls, ev))
+    sizes = [(56, 64, "1-word"), (72, 80, "2-words")] + ([] if suite else [(118, 128, "2-words-cert")])
+    for qbits, pbits, scls in sizes:
+        for k in (1, 2, 3, 5, 7, 12):
+            p, q, nodes = mov_pair(rng, qbits, pbits, k)
+            cmd(p, q, k, "k=%d:%s" % (k, scls), "" if q < pricert.MR_BOUND else "cert=" + cert_arg(nodes))
+    if not suite:
+        # the thresholds of the standards: embedding degree exactly 50 (bign), 31 and 131 (g12s), 256-bit pairs
+        for k in ((50,) if tier == "quick" else (50, 31, 131)):
+            p, q, nodes = mov_pair(rng, 250, 256, k)
+            cmd(p, q, k, "k=%d:256-bit" % k, "cert=" + cert_arg(nodes))
+    # order equal to the modulus (Semaev), composite orders (small factor / two primes)
+    p = rand_prime(rng, 64)
+    cmd(p, p, 0, "q=p")
+    p = rand_prime(rng, 64); q = rand_prime(rng, 30) * rand_prime(rng, 30)
+    cmd(p, q, 0, "q-composite:1-word")
+    if not suite:
+        p = rand_prime(rng, 128); f1 = rand_prime(rng, 60); q = f1 * rand_prime(rng, 64)
+        cmd(p, q, 0, "q-composite:2-words", "fo=" + hx(f1, 8))
+    return out
+
+
 # ------------------------------------------------------------------ the suite for C07 / C19 (small, seconds)
 def _suite_cmds(ctx, tier):
     rng = random.Random(int(ctx.seed) * 7919 + 12)
@@ -882,6 +955,7 @@ def _suite_cmds(ctx, tier):
     cmds += seed_cmds(rng, "quick")[::7]
     cmds += [c for c in prime_cmds(rng, "quick") if " cert=" not in c and " w=1" not in c][::5]
     cmds += tiny_curve_cmds(rng, "quick")[::9]
+    cmds += safe_group_cmds(rng, "quick", suite=True)[::2]
     cmds += ["belsValM m=x87000000000000000000000000000000 len=16 cls=std0", "ppIrred a=x870000000000000000000000000000000100000000000000 cls=belt"]
     return ("\n".join(cmds) + "\n").encode()
 
